@@ -2,7 +2,7 @@
    verification report are, written independently of the model (arithmetic, `be_encode`,
    `++`; no shifts, no struct formats, not calling the model's pack/unpack). *)
 From Coq Require Import ZArith List Bool.
-From SP Require Import Base.Bytes Base.Crc16 Model.SpacePacket Spec.SpacePacketSpec Spec.PusSpec.
+From SP Require Import Base.Bytes Base.Crc16 Model.SpacePacket Model.ReqId Spec.SpacePacketSpec Spec.PusSpec.
 Import ListNotations.
 Open Scope Z_scope.
 
@@ -18,6 +18,13 @@ Definition reqid_u32 (h : sph) : Z :=
 Definition reqid_fields_of_u32 (v : Z) : sph :=
   {| ver := v / 536870912; ptype := (v / 268435456) mod 2; shf := (v / 134217728) mod 2;
      apid := (v / 65536) mod 2048; sflags := (v / 16384) mod 4; scount := v mod 16384; dlen := 0 |}.
+
+(* a request ID object whose fields are in range (what the PacketId / PacketSeqCtrl
+   constructors and a 3-bit version number guarantee), and the header fields it stands for *)
+Definition sph_of_reqid (r : reqid) : sph :=
+  {| ver := rq_ver r; ptype := pid_ptype (rq_pid r); shf := pid_shf (rq_pid r); apid := pid_apid (rq_pid r);
+     sflags := psc_flags (rq_psc r); scount := psc_count (rq_psc r); dlen := 0 |}.
+Definition reqid_valid (r : reqid) : Prop := sph_valid (sph_of_reqid r).
 
 (* an enumerated field (step ID, failure code) of declared width w octets: big-endian *)
 Definition enum_width_ok (w : Z) : Prop := w = 1 \/ w = 2 \/ w = 4 \/ w = 8.
